@@ -22,11 +22,14 @@ const (
 // Shapes Gen never produces because vuego's behaviour there is unspecified or a known open
 // finding (the interpreter reports such a hand-written case as Result.Unspecified):
 const (
-	// ExclForIfThenElseIf: an element carrying v-for (with or without v-if) followed by
-	// v-else-if - open finding C03-vfor-on-if-member.
+	// ExclForIfThenElseIf is LIFTED (finding C03-vfor-on-if-member fixed in /repo a76c66e): a
+	// looped ELEMENT owns the whole v-else-if / v-else tail that follows it; forItem generates
+	// such tails and the interpreter evaluates them as a chain when the loop produced nothing.
+	// The constant is kept so that older reports / replays can still name the shape.
 	ExclForIfThenElseIf = "for-then-else-if"
-	// ExclElseAfterTemplateFor: v-else after a v-for written on <template> or on an include:
-	// "the loop produced nothing" is only defined for a looped element.
+	// ExclElseAfterTemplateFor: a v-else-if / v-else tail after a v-for written on <template>, on
+	// an include or on a <slot>: "the loop produced nothing" is only defined for a looped element
+	// (vuego counts output nodes, so the whitespace inside the template decides).
 	ExclElseAfterTemplateFor = "else-after-template-for"
 	// ExclPlainTemplateAttrs: <template :x="..."> without include writes through to the enclosing
 	// scope (documented deliberate behaviour, C04 anchor propagateTemplateAttributes).
@@ -34,8 +37,8 @@ const (
 	// ExclCollisionPropUndefined: a prop whose name is visible at the include site, bound to an
 	// undefined name (vuego binds nothing, Vue binds undefined).
 	ExclCollisionPropUndefined = "visible-prop-name-bound-to-undefined"
-	// ExclDirectiveOnSlot: v-else-if / v-else / v-show written on the <slot> element itself
-	// (v-if and v-for on it are generated).
+	// ExclDirectiveOnSlot: v-show written on the <slot> element itself, and v-for together with a
+	// chain directive on it (v-if, v-else-if, v-else alone and v-for alone are generated).
 	ExclDirectiveOnSlot = "directive-on-slot"
 	// ExclBothDefaultForms: plain children next to a <template v-slot> for the unnamed slot.
 	ExclBothDefaultForms = "plain-children-and-v-slot-template"
@@ -435,11 +438,35 @@ func (g *gstate) forItem(sc gscope) ([]Node, []string) {
 		}
 	}
 	out := []Node{n}
-	if n.Kind == KEl && g.left > 0 && g.pct(30) {
-		e, b := g.el(sc)
-		e.Else = true
-		out = append(out, e)
-		bound = append(bound, b...)
+	if n.Kind == KEl && g.left > 0 && g.pct(35) {
+		// The looped element owns the v-else-if / v-else tail that follows it: 0-2 v-else-if
+		// members, then maybe a v-else (at least one member).
+		nElseIf := 0
+		if g.pct(45) {
+			nElseIf = g.intn(1, 2)
+		}
+		hasElse := nElseIf == 0 || g.pct(60)
+		member := func() Node {
+			var e Node
+			var b []string
+			if g.left > 1 && g.pct(40) {
+				e, b = g.carrier(sc, false)
+			} else {
+				e, b = g.el(sc)
+			}
+			bound = append(bound, b...)
+			return e
+		}
+		for k := 0; k < nElseIf && g.left > 0; k++ {
+			e := member()
+			e.ElseIf = g.scalar(sc)
+			out = append(out, e)
+		}
+		if hasElse && (g.left > 0 || len(out) == 1) {
+			e := member()
+			e.Else = true
+			out = append(out, e)
+		}
 	}
 	return out, bound
 }
@@ -662,19 +689,48 @@ func (g *gstate) slotItem(sc gscope) ([]Node, []string) {
 		wrap.Kids = []Node{mk(sc.deeper())}
 		return []Node{wrap}, nil
 	case g.pct(30):
-		// v-if on the <slot> element itself, optionally followed by a v-else probe
+		// v-if on the <slot> element itself, optionally followed by a v-else element
 		n := mk(sc)
 		n.If = g.scalar(sc)
 		out := []Node{n}
 		if g.left > 0 && g.pct(50) {
 			g.left--
 			alt := Node{Kind: KEl, Tag: g.pick(tags), M: g.marker("e"), Else: true}
-			asc := sc.deeper()
-			asc.pending = nil
-			alt.Kids = []Node{g.probe(asc, nil)}
+			if sc.depth < MaxDepth-1 {
+				asc := sc.deeper()
+				asc.pending = nil
+				alt.Kids = []Node{g.probe(asc, nil)}
+			}
 			out = append(out, alt)
 		}
 		return out, nil
+	case g.pct(30):
+		// v-else-if / v-else on the <slot> element itself: the slot is a later member of a
+		// chain headed by an element with v-if, or the tail of a looped element.
+		g.left--
+		head := Node{Kind: KEl, Tag: g.pick(tags), M: g.marker("e")}
+		var bound []string
+		hsc := sc
+		if len(lists) > 0 && g.pct(30) {
+			f, sc2 := g.newFor(sc)
+			head.For = f
+			hsc = sc2
+			bound = append(bound, f.Var)
+		} else {
+			head.If = g.scalar(sc)
+		}
+		if sc.depth < MaxDepth-1 && g.left > 0 {
+			psc := hsc.deeper()
+			psc.pending = nil
+			head.Kids = []Node{g.probe(psc, nil)}
+		}
+		n := mk(sc)
+		if g.pct(60) {
+			n.Else = true
+		} else {
+			n.ElseIf = g.scalar(sc)
+		}
+		return []Node{head, n}, bound
 	}
 	return []Node{mk(sc)}, nil
 }
